@@ -554,7 +554,8 @@ def cluster_to_coq(sc, obs, I):
             else:
                 steps.append("(VRaw %s, VBytes None)" % hk(kx))
             if repl and backups:
-                bk = [c for c in copies if c[0] == backups[0] and c[1] == "backup"]
+                # after a join the list names the old and the new backup owner; one of them holds the copy (see check())
+                bk = [c for c in copies if c[0] in backups and c[1] == "backup"]
                 if bk:
                     steps.append("(VRawB %s, VBytes (Some %s))" % (hk(kx), cbytes(bytes.fromhex(bk[0][3]))))
                     steps.append("(VKeyB %s, VBytes (Some %s))" % (hk(kx), cbytes(bytes.fromhex(bk[0][2]))))
